@@ -544,7 +544,12 @@ class X12LoopDataNode(X12DataNode):
         ret.end_loops = list(self.end_loops)
         ret.parent = self.parent
         for child in self.children:
-            ret.children.append(child.copy())
+            if child.type is None:
+                continue  # deleted node waiting for cleanup
+            child_copy = child.copy()
+            # the copied children belong to the copy, not to the original
+            child_copy.parent = ret
+            ret.children.append(child_copy)
         return ret
 
     @property
